@@ -399,6 +399,25 @@ def prog_fi(rng, **kw):
     return prog
 
 
+def prog_closeroll(rng, **kw):
+    """Positions with maturities: closed after their date, rolled into a successor,
+    and only the still active names selected for (possibly random) weighting."""
+    T = rng.randint(7, 10)
+    cols = ["a", "b", "c", "d", "e"]
+    prog = {"T": T, "cols": list(cols), "px": {c: walk_prices(rng, T) for c in cols}, "extra": {},
+            "bt": {"capital": rng.choice([10000, 100000]), "integer": rng.random() < 0.5, "comm": COMMS[rng.choice(["zero", "zero", "fix"])]}}
+    closing = rng.sample(cols[:3], rng.randint(1, 2))
+    prog["extra"]["cd"] = {"__bydate__": True, "rows": {c: {"date": rng.randint(1, T - 2)} for c in closing}}
+    rolling = [c for c in cols[:3] if c not in closing][:1]
+    prog["extra"]["rd"] = {"__bydate__": True, "rows": {c: {"date": rng.randint(2, T - 2), "target": "e", "factor": rng.choice([1.0, 0.5, 2.0])} for c in rolling}}
+    wg = rng.choice([["WeighEqually", {}], ["WeighRandomly", {}], ["WeighRandomly", {}]])
+    sel = [["SelectAll", {}], ["SelectActive", {}]] + ([["SelectRandomly", {"n": 2}]] if rng.random() < 0.4 else [])
+    st = [["ClosePositionsAfterDates", {"close_dates": "cd"}], ["RollPositionsAfterDates", {"roll_data": "rd"}]] + sel + [wg, ["Rebalance", {}]]
+    prog["tree"] = {"name": "r", "algos": st, "children": [{"sec": c, "kind": "sec", "mult": 1} for c in cols]}
+    prog["family"] = "closeroll"
+    return prog
+
+
 def prog_replay(rng, **kw):
     """A blotter of executed trades replayed through ReplayTransactions (custom
     prices, several trades per date and ticker, timestamps inside the day)."""
@@ -475,7 +494,7 @@ def prog_cashstep(rng, **kw):
     return prog
 
 
-FAMILIES = {"replay": prog_replay, "risk": prog_risk, "cashstep": prog_cashstep, "fi": prog_fi, "nested09": prog_nested09, "lookback": prog_lookback, "flat": prog_flat, "nested": prog_nested, "bankrupt": prog_bankrupt, "flows": prog_flows}
+FAMILIES = {"closeroll": prog_closeroll, "replay": prog_replay, "risk": prog_risk, "cashstep": prog_cashstep, "fi": prog_fi, "nested09": prog_nested09, "lookback": prog_lookback, "flat": prog_flat, "nested": prog_nested, "bankrupt": prog_bankrupt, "flows": prog_flows}
 
 
 def prog_by_family(seed, i, family):
